@@ -41,7 +41,12 @@ def stages(tier, seed, bins):
         if m == "klle":
             c["kshift"] = rnd.choice([1e-3, 1e-3, 1e-2, 1e-5])
         if m in ("klle", "kltsa"):
-            c["nshift"] = rnd.choice([1e-9, 1e-9, 1e-6])
+            c["nshift"] = rnd.choice([1e-9, 1e-9, 1e-6, 1e-3, 0.1])
+        # the same data in another unit (the cost is scale free: every clause must still hold), and very wide RBF kernels
+        if rnd.random() < 0.35 and c.get("kernel") is None:
+            c["xscale"] = rnd.choice([1e-6, 1e-5, 1e-3, 1e2, 1e3])
+        if c.get("kernel") == "rbf" and rnd.random() < 0.3:
+            c["gamma"] = rnd.choice([1e-5, 1e-7])
         cases.append(c)
     return [dict(name="lle", exe=bins["spectral"], cases=finish(cases, "l"), timeout=300)]
 
